@@ -149,7 +149,7 @@ def linearizable(st, progs, obs, final):
                     cs += [o.rval == res['rval'], o.rflags == res['rflags'], o.rcas == res['rcas']]
                 if cmd in ('increment', 'decrement'):
                     cs.append(o.rnum == res['rnum'])
-        fv, fval, fflags, fcas = final
+        fv, fval, fflags, fcas = final[:4]
         cs.append(fv == s[0])
         cs.append(z3.Implies(fv, z3.And(fval == s[1], fflags == s[2], fcas == s[3])))
         alts.append(z3.And(cs))
